@@ -475,20 +475,6 @@ def r6_no_state_outside_the_manager(ctx):
     R.floor("C18.R6", n, 3, "long-running client task bodies")
 
 
-def _err_return_blocks(b):
-    errs = set()
-    for bi, blk in enumerate(b.blocks):
-        if bi not in b.reachable:
-            continue
-        for st in blk["st"]:
-            if st["s"] == "assign" and st["pl"]["l"] == 0 and not st["pl"].get("p") and st["rv"]["k"] == "agg" and st["rv"].get("variant") == "Err":
-                errs.add(bi)
-        t = blk["term"]
-        if t and t["t"] == "call" and t.get("dest") and t["dest"]["l"] == 0 and re.search(r"from_residual$", (op_const(t["f"]) or {}).get("fn", "")):
-            errs.add(bi)
-    return errs
-
-
 def r7_failed_write_ends_the_task(ctx):
     """bookkeeping done before a message is written (pending entries inserted, a subscription turned into `awaiting the
     unsubscribe acknowledgement`) is only ever undone by the answer to that message - or by the whole client going down,
@@ -501,25 +487,13 @@ def r7_failed_write_ends_the_task(ctx):
     for pat in (r"^jsonrpsee_core::client::async_client::handle_frontend_messages::\{closure#0\}$", r"^jsonrpsee_core::client::async_client::helpers::stop_subscription::\{closure#0\}$"):
         b = F.one(pat)
         R.fn(b)
-        errs = _err_return_blocks(b)
-        exits = {bi for bi, blk in enumerate(b.blocks) if blk["term"] and blk["term"]["t"] == "return"}
+        from .common import awaited_error_leaves_function
         for c in b.calls_to(r"client::TransportSenderT::send$|async_client::helpers::stop_subscription$"):
             n += 1
-            vl, rb = awaited_value_local(b, c)
-            if vl is None:
+            err_arms, ok = awaited_error_leaves_function(b, c)
+            if err_arms is None:
                 R.anchor_lost("C18.R7", "awaited result of %s in %s" % (short(c.name()), b.path))
                 continue
-            holders = follow_value(b, vl)
-            err_arms = []
-            for br in b.calls_to(r"Try.*::branch$"):
-                if any(arg_is_local(b, br.args[0], h) for h in holders):
-                    for sb, arms, other in flow.switch_on(b, br.dest["l"]):
-                        if arms.get("1") is not None:
-                            err_arms.append(arms["1"])
-            for sb, arms, other in flow.switch_on(b, vl):
-                if arms.get("1") is not None:
-                    err_arms.append(arms["1"])
-            ok = bool(err_arms) and all(t in errs or flow.all_paths_pass(b, t, errs, exits) for t in err_arms)
             R.check(ok, "C18.R7", "%s:write-error-propagates:%s@%d" % (fkey(b), (c.name() or "").split("::")[-1], sorted(x.bb for x in b.calls).index(c.bb)), "a failed write ends the send task with its error", "%s %s %s: the send task goes on although the message was never written, so the pending entries / the `awaiting acknowledgement` markers recorded for it (subscribe id, reserved unsubscribe id) are never resolved and stay in the request manager - a later response with such an id is swallowed" % (short(b.path), "can continue after a failed" if err_arms else "ignores the result of", short(c.name())), where(c))
     R.floor("C18.R7", n, 5, "transport writes in the send path")
 
